@@ -117,7 +117,7 @@ func renderSentence(rng *rand.Rand, toks []string, triviaP float64) string {
 		if rng.Float64() < triviaP && prev != "METADATA" {
 			choices := []string{" ", "\t", "\n", "  ", " \n "}
 			if !inMeta && prev != "UNDERSCORE" {
-				choices = append(choices, ";c\n", " ; a [b] {c}\n", ";\n")
+				choices = append(choices, ";c\n", " ; a [b] {c}\n", ";\n", ";a\n;b\n", "; one\n ; two\n;three\n", ";1\n;2\n;3\n;4\n;5\n", "\n;x\n\n;y\n")
 			}
 			sb.WriteString(choices[rng.Intn(len(choices))])
 		}
@@ -162,7 +162,7 @@ func renderSentence(rng *rand.Rand, toks []string, triviaP float64) string {
 		prev = t
 	}
 	if rng.Intn(3) == 0 {
-		sb.WriteString([]string{"\n", " ", " ;end", "\n;x\n"}[rng.Intn(4)])
+		sb.WriteString([]string{"\n", " ", " ;end", "\n;x\n", "\n;a\n;b\n;c\n;d\n", ";p\n;q\n;r"}[rng.Intn(6)])
 	}
 	return sb.String()
 }
